@@ -8,6 +8,7 @@
   on the whole table.
 -/
 import Pongo.Lemmas.LexPos
+import Pongo.Gen.FilterFacts
 import Pongo.Lemmas.RenderText
 import Pongo.Gen.LexTables
 
@@ -114,6 +115,40 @@ example : ∀ k, k < ([0x7b, 0x7b, 0x78] : Bytes).length →
 example : lex Gen.lexTables (Gen.lexTables.verbStart ++ ([0x7b, 0x7b, 0x78] ++ Gen.lexTables.verbEnd)) =
     .ok [⟨.html, [0x7b, 0x7b, 0x78], 1, 1 + Gen.lexTables.verbStartW, false, Gen.lexTables.verbStartW⟩] := by
   simpa using gen_verbatim_literal [0x7b, 0x7b, 0x78] (by decide)
+
+/-! ### `templatetag` -/
+
+/-- the table of `templatetag` arguments, regenerated from tags_templatetag.go: the eight names and
+    the delimiter each one stands for — and the model's table is that table -/
+theorem gen_templatetag_table :
+    Gen.templateTagMapping =
+      [(b!"closeblock", b!"%}"), (b!"closebrace", b!"}"), (b!"closecomment", b!"#}"), (b!"closevariable", b!"}}"),
+       (b!"openblock", b!"{%"), (b!"openbrace", b!"{"), (b!"opencomment", b!"{#"), (b!"openvariable", b!"{{")] ∧
+    (∀ kv ∈ Gen.templateTagMapping, templateTagMapping.lookup kv.1 = some kv.2) ∧
+    templateTagMapping.length = Gen.templateTagMapping.length := by decide
+
+/-- **`templatetag` emits exactly the delimiter it names**: the tag with a name of the table compiles
+    to a node holding that delimiter, and executing the node appends exactly those bytes. -/
+theorem templatetag_emits_named_delimiter (T : LexTables) (cfg : SetCfg) (g : Env) (fuel : Nat) (start close a : Tok) (args args' : PS)
+    (ds : DS) (out : Bytes) (σ : ES)
+    (hs : start.val = b!"templatetag") (hm : args.matchType .ident = some (a, args'))
+    (hl : templateTagMapping.lookup a.val = some out) (hr : args'.remaining = 0) :
+    tagParser T cfg (fuel + 1) start close args ds = .ok (.tagTemplatetag out, some close, ds) ∧
+    (execNode T cfg g (fuel + 1) (.tagTemplatetag out)).run σ = .ok () { σ with out := σ.out ++ out } := by
+  constructor
+  · unfold tagParser
+    rw [if_neg (by rw [hs]; decide), if_neg (by rw [hs]; decide), if_neg (by rw [hs]; decide), if_neg (by rw [hs]; decide),
+      if_neg (by rw [hs]; decide), if_neg (by rw [hs]; decide), if_neg (by rw [hs]; decide), if_neg (by rw [hs]; decide),
+      if_neg (by rw [hs]; decide), if_neg (by rw [hs]; decide), if_neg (by rw [hs]; decide), if_neg (by rw [hs]; decide),
+      if_neg (by rw [hs]; decide), if_neg (by rw [hs]; decide), if_neg (by rw [hs]; decide), if_neg (by rw [hs]; decide),
+      if_neg (by rw [hs]; decide), if_neg (by rw [hs]; decide), if_neg (by rw [hs]; decide),
+      if_pos (by rw [hs]; decide)]
+    simp [hm, hl, hr, pure, Except.pure]
+  · unfold execNode
+    rfl
+
+/-- an unknown name is a compile error -/
+example : templateTagMapping.lookup b!"openbracket" = none := by decide
 
 /-- **Every text token is a byte-for-byte piece of the source**, for every source whatsoever (text
     mixed with tags, strings, comments, verbatim blocks; any bytes): the literal text the renderer
